@@ -10,6 +10,7 @@ if ! git apply --check "$d/patch.diff" 2>/dev/null; then echo "run_seed: patch d
 git apply "$d/patch.diff"
 trap 'git -C /repo checkout -- . ; git -C /repo clean -fdq crates' EXIT
 cd /verif
-out=$(VERIF_DIR=/verif ./check "$prop" "$tier" 2>&1); code=$?
+mkdir -p /tmp/verif-seed-out
+out=$(VERIF_OUT=/tmp/verif-seed-out ./check "$prop" "$tier" 2>&1); code=$?
 echo "$out" | grep -E "^(VIOLATION|KNOWN-FINDING|INCONCLUSIVE|violation signature|$prop )" | head -20
 echo "seed $(basename "$d"): property=$prop tier=$tier exit=$code $( [ $code -eq 1 ] && echo DETECTED || echo MISSED )"
